@@ -177,3 +177,37 @@ type verifAsk struct {
 }
 
 var verifAsked []verifAsk
+
+// C17.H1b: one asterisk per CHARACTER (not per byte) up to max_count, for text mixing one-, two- and
+// three-byte characters.
+func VerifH_C17_maskRunes() {
+	chars := []string{"a", "é", "я", "日"}
+	n := 1 + vf.Choose("characters", vf.Param("N", 4))
+	var src []byte
+	for i := 0; i < n; i++ {
+		src = append(src, chars[vf.Choose("char", len(chars))]...)
+	}
+	maxCount := vf.Choose("max-count", vf.Param("N", 4)+3) // 0 = unlimited
+	m := &Mask{MaxCount: maxCount}
+	m.mode = modeMask
+	pre, post := []byte("<"), []byte(">")
+	buf := append([]byte(nil), pre...)
+	buf = m.maskSection(buf, src, 0, len(src))
+	buf = append(buf, post...)
+	want := n
+	if maxCount > 0 && maxCount < n {
+		want = maxCount
+	}
+	ok := len(buf) == want+2 && buf[0] == '<' && buf[len(buf)-1] == '>'
+	for i := 1; ok && i <= want; i++ {
+		ok = buf[i] == '*'
+	}
+	if vf.Param("twin", 0) == 1 {
+		vf.Assert(!ok, "one-asterisk-per-character-up-to-max-count")
+		return
+	}
+	vf.Assert(ok, "one-asterisk-per-character-up-to-max-count")
+	if len(src) > n {
+		vf.Reach("multi-byte-text")
+	}
+}
